@@ -49,6 +49,7 @@ static void vs_case(int tb, int prior, int field, int v) {
     if (prior % 5) { pev d = ev_discover((uint8_t)tos, ST_M1, br ? ST_BR : ST_M1, PRIOR_GEN[prior % 5], 1); apply_pev(&d); vf_trace_clear(); }
     if (prior >= 5) { pev h = ev_hello((uint8_t)tos, ST_PEER, 0x3412); apply_pev(&h); vf_trace_clear(); }
     pev e = ev_discover((uint8_t)tos, ST_M1, br ? ST_BR : ST_M1, field == 0 ? (uint16_t)v : 0x4321, field == 1 ? (uint16_t)v : 2);
+    if (field == 2) { e.nsta = (uint16_t)(v >> 1); e.own_pos = (v & 1) && e.nsta ? (int8_t)-1 : (int8_t)-1; if ((v & 1) && e.nsta) e.own_pos = (int8_t)((e.nsta - 1) > 120 ? 120 : (e.nsta - 1)); }   /* station list of every length that fits the frame, our address absent / listed */
     if (A.verbose) { char nm[160]; pev_name(&e, nm, sizeof nm); printf("    prior generation 0x%04x%s, then %s\n", PRIOR_GEN[prior % 5], prior >= 5 ? ", neighbour's Hello heard" : "", nm); }
     apply_pev(&e);
     vs_cases++;
@@ -59,6 +60,10 @@ static void vs_root(void) { vs_n = 0; }
 static e1_cfg vscfg = { .nev = 1 << 16, .ev_name = vs_name, .apply = vs_apply, .root_setup = vs_root };
 static void value_sweep03(void) {
     static int p[4];
+    for (int tb = 0; tb < 4; tb++) for (int prior = 0; prior < 10; prior += 5) {      /* station-count sweep: 0..(MTU-36)/6 stations, our address absent / listed */
+        int maxsta = (int)((W.iface[0].mtu - 36) / 6); if (maxsta > 1500) maxsta = 1500;
+        for (int v = 0; v <= 2 * maxsta + 1; v++) { p[0] = tb; p[1] = prior; p[2] = 2; p[3] = v; e1_manual_path(&vscfg, p, 4); vs_case(tb, prior, 2, v); }
+    }
     for (int tb = 0; tb < 4; tb++) for (int prior = 0; prior < 10; prior++) for (int field = 0; field < 2; field++) {
         if (prior == 0 && field == 1 && !vf_thorough() && tb) continue;
         /* one snapshot per state, restored for every value */
@@ -291,7 +296,7 @@ int main(int argc, char **argv) {
         memset(&st, 0, sizeof st);
         value_sweep03();
         st.transitions = vs_cases; st.fixpoint = 1;
-        vf_sample("Discover value sweep: {topology, quick} x {direct, bridged} x 10 prior states x generation 0..65535%s", vf_thorough() ? " and sequence number 0..65535" : " and every sequence number with a byte in {0,1,2,0xFE,0xFF}");
+        vf_sample("Discover value sweep: {topology, quick} x {direct, bridged} x 10 prior states x generation 0..65535%s; station lists of every length 0..(MTU-36)/6 with our address absent / listed", vf_thorough() ? " and sequence number 0..65535" : " and every sequence number with a byte in {0,1,2,0xFE,0xFF}");
     } else if (mode == 2 && A.a == 4) {
         memset(&st, 0, sizeof st);
         noise_sweep02();
